@@ -3,9 +3,11 @@ package main
 // Independent readers of the files the library writes (trusted base of the harness).
 
 import (
+	"bytes"
 	"encoding/binary"
 	"encoding/xml"
 	"fmt"
+	"io"
 	"math"
 	"os"
 	"strconv"
@@ -133,8 +135,28 @@ func readSVG(path string) (*svgDoc, error) {
 		return nil, err
 	}
 	var d svgDoc
-	if err := xml.Unmarshal(b, &d); err != nil {
+	dec := xml.NewDecoder(bytes.NewReader(b))
+	if err := dec.Decode(&d); err != nil {
 		return nil, err
+	}
+	// nothing but white space may follow the root element (the stale tail of an earlier, longer file would)
+	for {
+		tok, err := dec.Token()
+		if err == io.EOF {
+			break
+		}
+		if err != nil {
+			return nil, fmt.Errorf("after the root element: %v", err)
+		}
+		switch t := tok.(type) {
+		case xml.CharData:
+			if len(bytes.TrimSpace(t)) > 0 {
+				return nil, fmt.Errorf("text after the root element")
+			}
+		case xml.Comment:
+		default:
+			return nil, fmt.Errorf("markup after the root element")
+		}
 	}
 	return &d, nil
 }
